@@ -98,7 +98,13 @@ type SourceScript struct {
 	Faults                           bool
 	// PositionOf overrides the position bytes of a record (C09 shapes: empty / duplicate positions).
 	PositionOf func(i int) opencdc.Position
+	// NoMatch lists record indices carrying metadata verif.match=n (all others y): processor conditions
+	// `{{ eq (index .Metadata "verif.match") "y" }}` then skip exactly those records.
+	NoMatch []int
 }
+
+// MatchCondition is the processor condition that is false exactly for the records listed in SourceScript.NoMatch.
+const MatchCondition = `{{ eq (index .Metadata "verif.match") "y" }}`
 
 // Source is a scripted SDK-level source plugin. One value serves every (re)start of the connector: each Open
 // starts a new epoch that resumes after the position it was given.
@@ -131,10 +137,16 @@ func (s *Source) pos(i int) opencdc.Position {
 
 // Record builds record i of this source.
 func (s *Source) Record(i int) opencdc.Record {
+	match := "y"
+	for _, n := range s.S.NoMatch {
+		if n == i {
+			match = "n"
+		}
+	}
 	return opencdc.Record{
 		Position:  s.pos(i),
 		Operation: opencdc.OperationCreate,
-		Metadata:  opencdc.Metadata{MetaID: s.S.Name + ":" + strconv.Itoa(i)},
+		Metadata:  opencdc.Metadata{MetaID: s.S.Name + ":" + strconv.Itoa(i), "verif.match": match},
 		Key:       opencdc.RawData(s.S.Name + ":" + strconv.Itoa(i)),
 		Payload:   opencdc.Change{After: opencdc.RawData("v" + strconv.Itoa(i))},
 	}
